@@ -108,6 +108,7 @@ def call_run_case(prop, case, beat=True):
     import signal
 
     limit = getattr(prop, "CASE_TIMEOUT_S", CASE_TIMEOUT_S)
+    limit *= int(os.environ.get("VERIF_TIMEOUT_SCALE", "1"))
     if isinstance(case, dict) and case.get("case_timeout_s"):
         # a deliberately big case: it reports progress itself (touch()) for the process watchdog
         limit = int(case["case_timeout_s"])
@@ -655,6 +656,7 @@ def run_check(pid, tier, seed_value, jobs, budget_s):
             hung |= {b for b in pm.failures if b.startswith(("did-not-terminate", "process-died"))}
             stats.merge(pm)
 
+    confirm_timeouts(pid, prop, stats, hung, limit_s)
     open_known = known.open_entries(pid)
     # shrink (Hypothesis stages) up to three root causes
     replay_paths = []
@@ -692,6 +694,34 @@ def run_check(pid, tier, seed_value, jobs, budget_s):
     wall = time.monotonic() - t0
     write_evidence(prop, tier, seed_value, stats, wall, len(replay_paths))
     return stats, replay_paths, open_known
+
+
+def confirm_timeouts(pid, prop, stats, hung, limit_s):
+    """a case that did not come back in time is run once more, alone in a fresh process and with
+    three times the limit, before it counts: a time limit hit on a loaded machine is
+    'inconclusive', only a case that again fails to terminate (or dies) is a finding"""
+    for bucket in [b for b in stats.failures if b.startswith(("did-not-terminate", "process-died"))]:
+        size, case, discs = stats.failures[bucket]
+        os.environ["VERIF_TIMEOUT_SCALE"] = "3"
+        try:
+            (status, payload), = supervise([(_replay_worker, (pid, case))], 3 * limit_s)
+        finally:
+            os.environ.pop("VERIF_TIMEOUT_SCALE", None)
+        if status != "ok":
+            continue  # killed / died again (or the harness failed): the finding stands
+        again = harness.revive(payload)
+        del stats.failures[bucket]
+        hung.discard(bucket)
+        open_known = known.open_entries(pid)
+        unknown = [d for d in again if not known.match(pid, sub_case(case, d), d, open_known)]
+        if not unknown:
+            stats.labels["inconclusive:time-limit-hit-but-not-reproduced"] += 1
+            print(f"INCONCLUSIVE property={pid} a case hit the time limit ({bucket}) and finished when run again alone", flush=True)
+            continue
+        for d in unknown:
+            stats.failures.setdefault(bucket_of(d), (size, case, [d]))
+        if any(b.startswith("did-not-terminate") for b in (bucket_of(d) for d in unknown)):
+            hung.add(bucket_of(unknown[0]))
 
 
 def write_evidence(prop, tier, seed_value, stats, wall, violations):
